@@ -89,7 +89,7 @@ func execProcUci(script []string) string {
 			mu.Lock()
 			switch {
 			case strings.HasPrefix(l, "bestmove "):
-				if len(strings.Fields(l)) != 2 {
+				if !bestmoveLine(l) {
 					odd++
 				}
 				best++
